@@ -33,9 +33,91 @@ def mesh_function_level(ctx, rep):
     return len(cases)
 
 
+def inverse_function_level(ctx, rep):
+    """inverse_transf on many bound sets (C11's generator + power-of-ten log boxes), at the internal bounds themselves, one ulp either side,
+    beyond them and in between: the image must lie inside the original hard box EXACTLY, and equal clamp(ginv(u)) (Pipe.inverse)."""
+    import math
+    from pybads.variable_transformer import VariableTransformer
+    from . import c11
+    from ..proto import enc, enc_pt
+    rng = ctx.sub_rng("c01inv")
+    nsets = 200 if ctx.quick else 3000
+    reqs, owners = [], []
+    stats = {"bound_sets": 0, "points": 0, "log_coords": 0, "clamped_points": 0}
+    for si in range(nsets):
+        if si % 3 == 0:
+            D = rng.randint(1, 4)
+            lb, ub, plb, pub = [], [], [], []
+            for _ in range(D):
+                a = rng.randint(-6, 2); b = a + rng.randint(1, 2); c = b + rng.randint(1, 3); d = c + rng.randint(0, 2)
+                lb.append(10.0 ** a); plb.append(10.0 ** b); pub.append(10.0 ** c); ub.append(10.0 ** d)
+        else:
+            D, lb, ub, plb, pub = c11.gen_bounds(rng, ctx.quick)
+        try:
+            vt = VariableTransformer(D, np.array([lb]), np.array([ub]), np.array([plb]), np.array([pub]), np.full((1, D), np.nan))
+        except ValueError:
+            continue
+        tl, tu = np.asarray(vt.lb, dtype=float).ravel(), np.asarray(vt.ub, dtype=float).ravel()
+        lo = np.where(np.isfinite(tl), tl, -5.0)
+        hi = np.where(np.isfinite(tu), tu, 5.0)
+        rows = [lo, hi, np.nextafter(lo, -np.inf), np.nextafter(lo, np.inf), np.nextafter(hi, -np.inf), np.nextafter(hi, np.inf),
+                lo - 1e-9, hi + 1e-9, lo - 0.5, hi + 0.5, np.full(D, -1.0), np.full(D, 1.0)]
+        for _ in range(4):
+            rows.append(np.array([rng.choice([lo[i], hi[i], lo[i] + (hi[i] - lo[i]) * rng.random(), hi[i] + 2.0 ** -rng.randint(1, 30), lo[i] - 2.0 ** -rng.randint(1, 30)]) for i in range(D)]))
+        U = np.array(rows, dtype=float)
+        with np.errstate(all="ignore"):
+            X = np.atleast_2d(vt.inverse_transf(U.copy()))
+            G = np.atleast_2d(vt.ginv(U.copy()))
+        if not (np.all(np.isfinite(X)) and np.all(np.isfinite(G))):
+            continue
+        stats["bound_sets"] += 1
+        stats["log_coords"] += int(np.sum(np.asarray(vt.apply_log_t).ravel() != 0)) if hasattr(vt, "apply_log_t") else 0
+        reqs.append({"cmd": "pipe.run",
+                     "env": {"lb": [enc(float(v)) for v in tl], "ub": [enc(float(v)) for v in tu], "origLo": [enc(float(v)) for v in lb], "origHi": [enc(float(v)) for v in ub], "tol": enc(2.0 ** -20)},
+                     "u0": enc_pt([float(v) for v in U[0]]), "steps": [],
+                     "calls": [{"u": enc_pt([float(v) for v in u]), "x": enc_pt([float(v) for v in x]), "ginv": enc_pt([float(v) for v in g])} for u, x, g in zip(U, X, G)]})
+        owners.append((lb, ub, plb, pub, U, X, G))
+    res = ctx.driver.call_many(reqs)
+    for (lb, ub, plb, pub, U, X, G), r in zip(owners, res):
+        for i, cr in enumerate(r["calls"]):
+            stats["points"] += 1
+            stats["clamped_points"] += bool(np.any(X[i] != G[i]))
+            case = {"kind": "inverse", "lb": lb, "ub": ub, "plb": plb, "pub": pub, "u": [float(v) for v in U[i]]}
+            if not cr["x_in"]:
+                rep.violation("orig_box", "variables_transformer.py:inverse_transf",
+                              f"inverse_transf(u) lies outside the hard bounds: lb={lb} ub={ub} plb={plb} pub={pub} u={[float(v) for v in U[i]]} -> x={[float(v) for v in X[i]]}", case)
+                break
+            if not cr["x_eq"]:
+                rep.disagree("Pipe.inverse ~ inverse_transf", f"inverse_transf(u) is not clamp(ginv(u)) for lb={lb} ub={ub} u={[float(v) for v in U[i]]}", case)
+                break
+    return stats
+
+
+def logdec_specs(ctx):
+    """Runs on power-of-ten log boxes with the optimum on or beyond a bound: the run visits the bound faces, whose internal images are
+    exactly on the mesh and whose un-clamped inverse images may round to either side of the hard bound."""
+    from .. import gen
+    rng = ctx.sub_rng("c01logdec")
+    specs = []
+    for _ in range(8 if ctx.quick else 60):
+        D = rng.choice([1, 2, 2, 3])
+        sp = gen.make_spec(rng, D=D, geom="logdec", mode=rng.choice(["det", "det", "decl"]), opt_loc=rng.choice(["on_bound", "outside"]),
+                           cons=rng.choice([None, None, "halfspace"]), target=rng.choice(["quad", "abs"]))
+        dec = []
+        for _i in range(D):
+            a = rng.randint(-3, 0); b = a + 1; c = b + rng.randint(1, 2); d = c + rng.randint(0, 1) + (1 if rng.random() < 0.7 else 0)
+            dec.append([a, b, c, d])
+        sp["decades"] = dec
+        sp["options"] = {"n_search": 32, "max_fun_evals": (D + 30) if sp["mode"] == "det" else 70}
+        specs.append(sp)
+    return specs
+
+
 def run(ctx):
     rep = Report()
     nmesh = mesh_function_level(ctx, rep)
+    inv = inverse_function_level(ctx, rep)
+    runlevel.with_extra(ctx, "c01logdec", lambda: logdec_specs(ctx))
     stats, samples = runlevel.pipe_replay(ctx, rep, "C01")
     fcov = runlevel.filter_events(ctx, rep, want_clauses=("in_box",))
     traces = runlevel.get_pool(ctx)
@@ -43,7 +125,7 @@ def run(ctx):
         "evaluations": stats["calls"] + nmesh + fcov["filter_events"], "distinct_nontrivial": stats["clamped_calls"] + stats["on_bound_calls"] + fcov["nontrivial"],
         "rule": "every target call, constraint call, log row and returned solution of the traced runs (box predicates evaluated by the Lean definitions on the observed points; provenance replayed through Pipe.step), "
                 "every contraints_check call (box clause), plus dyadic mesh/bound cases for the search-box computation; non-trivial = calls whose image was clamped or lies on a bound + filter calls that changed their input",
-        "samples": samples, "traces_validated_against_impl": stats["runs"], "pipeline": stats, "mesh_cases": nmesh, "filters": fcov,
+        "samples": samples, "traces_validated_against_impl": stats["runs"], "pipeline": stats, "mesh_cases": nmesh, "inverse_function_level": inv, "filters": fcov,
         "pool": runlevel.pool_distribution(traces),
     }
     rep.assumptions = ["candidate sets are NaN-free (asserted on observed sets)", "no float overflow in mesh arithmetic (|u|/h < 2^52 asserted on observed values)",
@@ -57,9 +139,21 @@ def replay(ctx, data):
     c = data["case"]
     if c.get("kind") == "mesh":
         return rep
+    if c.get("kind") == "inverse":
+        return _replay_inverse(ctx, rep, c)
     ctx._pool = [tracer.run_traced(c["spec"])]
     runlevel.pipe_replay(ctx, rep, ctx.pid)
     runlevel.filter_events(ctx, rep, want_clauses=("in_box",) if ctx.pid == "C01" else ("feasible",))
+    return rep
+
+
+def _replay_inverse(ctx, rep, c):
+    from pybads.variable_transformer import VariableTransformer
+    D = len(c["lb"])
+    vt = VariableTransformer(D, np.array([c["lb"]]), np.array([c["ub"]]), np.array([c["plb"]]), np.array([c["pub"]]), np.full((1, D), np.nan))
+    x = np.asarray(vt.inverse_transf(np.array([c["u"]], dtype=float))).ravel()
+    if any(not (l <= v <= u) for v, l, u in zip(x, c["lb"], c["ub"])):
+        rep.violation("orig_box", "variables_transformer.py:inverse_transf", f"inverse_transf(u) lies outside the hard bounds: u={c['u']} -> x={[float(v) for v in x]}", c)
     return rep
 
 
